@@ -80,6 +80,7 @@ SerialWrite(t, e, s) ==
 
 (* ---------------------------------------------------------------------------------- serial, drift *)
 DriftFail(t, e, s) ==
+  IF (e.k = "topup" \/ e.k = "write") /\ (e.b < 0 - 1500000000 \/ s.bm < 0 - 1500000000) THEN "drift:bucket_beyond_32bit" ELSE
   CASE e.k = "topup" -> IF e.b >= 0 - Cap /\ (R!TopUp(s.bm, s.lastm, e.t) - e.b > TolB \/ e.b - R!TopUp(s.bm, s.lastm, e.t) > TolB)
                         THEN "drift:topup" ELSE ""
     [] e.k = "write" -> LET j == IdxOf(s.btop, e.id) IN
@@ -183,7 +184,9 @@ Init == /\ tid \in 1..Len(Traces) /\ l = 1 /\ fail = <<>>
 Step == /\ l <= Len(Traces[tid].ev)
         /\ LET t == Traces[tid]  e == t.ev[l]  c == FailOf(t, e, st) IN
              /\ fail' = IF fail = <<>> /\ c # "" THEN <<l, c, e.id>> ELSE fail
-             /\ st' = StepOf(t, e, st)
+             \* once a trace is rejected its numbers are no longer evolved (a grossly overdrawn bucket would
+             \* leave the 32-bit range); the verdict is the first failing clause
+             /\ st' = IF fail = <<>> /\ c = "" THEN StepOf(t, e, st) ELSE st
         /\ l' = l + 1 /\ UNCHANGED tid
 Spec == Init /\ [][Step]_tvars
 Verdict == (l > Len(Traces[tid].ev)) => PrintT(<<"VERDICT", tid, fail>>)
